@@ -419,10 +419,12 @@ def _c02(tier, seed):
         for lam in (128, 80):
             jobs += J('c02.cpp', 'optim', 'spqlios-fma', args=['part=bfs', 'w=2', 'lambda=%d' % lam, 'threads=7'], timeout=600, deadline=400)
             jobs += J('c02.cpp', 'optim', 'spqlios-fma', args=['part=corpus', 'lambda=%d' % lam])
+            jobs += J('c02.cpp', 'optim', 'spqlios-fma', args=['part=strata', 'lambda=%d' % lam, 'threads=6'], timeout=600, deadline=400)
         return jobs
     for lam in (128, 80):
         jobs += J('c02.cpp', 'optim', 'spqlios-fma', args=['part=bfs', 'w=3', 'lambda=%d' % lam, 'threads=8'], timeout=6000, deadline=5400)
         jobs += J('c02.cpp', 'optim', 'spqlios-fma', args=['part=corpus', 'lambda=%d' % lam], timeout=3000, deadline=2400)
+        jobs += J('c02.cpp', 'optim', 'spqlios-fma', args=['part=strata', 'lambda=%d' % lam, 'threads=8'], timeout=3000, deadline=2400)
     for be in ['fftw', 'nayuki-avx', 'nayuki-portable', 'spqlios-avx']:
         jobs += J('c02.cpp', 'optim', be, args=['part=bfs', 'w=2', 'lambda=128', 'threads=4'], timeout=6000, deadline=5400)
     jobs += J('c02.cpp', 'debug', 'spqlios-fma', args=['part=bfs', 'w=2', 'lambda=80', 'threads=4'], timeout=6000, deadline=5400)
@@ -432,7 +434,7 @@ PROPS['C02'] = dict(
     technique='explicit-state breadth-first search over the real transition function (every gate x every register choice executed on the real library with real default keys), abstract-state hashing, fix-point; plus a plaintext-interpreter corpus',
     rule='state = register file of w ciphertexts, abstract key = per register (bit, kind in {T,F,B,M,P}); transitions = 14 gates x every destination/source choice (in-place and shared inputs included) + FRESH + INJECT(+-) at the admissible limit; '
          'BFS to the fix-point, one concrete representative per abstract state. oracles per transition: decryption == plaintext netlist, |output error| < 3/64; per pool (>= 500 outputs): stdev < bound (0.0037 / 0.0047, x1.35 MUX), |mean| <= bound/4; '
-         'strata (input class, depth, in-place, shared inputs; >= 2000 outputs each) agree within 8 estimator sigma. non-trivial = pools/strata judged',
+         'input-independence on independent samples: per input class {fresh, outputs of independent gates, adversarial, depth-6 chains, mixed} n evaluations sharing nothing; the strata agree within 8 estimator sigma (the BFS pools reuse one representative per abstract state, so they are correlated: bound checks there use n/16 as effective size and are not compared with each other). non-trivial = pools/strata judged',
     bounds={'quick': 'w=2 (100 abstract states x 116 operations = 11600 transitions per parameter set) for both default sets on spqlios-fma; corpus: 8-bit adder x2, comparator, 8:1 MUX tree, 200-gate in-place chain, fan-out parity net',
             'thorough': 'w=3 (1000 abstract states x 423 operations) for both sets; w=2 on the other four back-ends and on debug; 1000-gate chain'},
     assumptions=['the abstraction (bit, kind) is sound iff a bootstrapped output\'s noise does not depend on its history - which is the second half of the property and is checked on the same run (strata by input class and depth)',
